@@ -2077,3 +2077,64 @@ func ruleConfigRoundTripDecodesIntoTheLoadedObject(c *core.Ctx) {
 		c.Undecided(rule, "anchor/koanf round trip", 0, "no function of internal/cmd loads a struct into koanf and unmarshals it")
 	}
 }
+
+func init() {
+	reg("C04", rulePreviousSchemaTakenAtOnce)
+	reg("C05", rulePreviousSchemaTakenAtOnce)
+	reg("C15", rulePreviousSchemaTakenAtOnce)
+}
+
+// ---------------------------------------------------------------------------------------------------------------
+// A9: the schema text of a previous version is taken in one step, as a string, while the old environment is still
+// what the old version's own `yardl generate` saw: every assignment to a PreviousSchema field is the direct result of
+// GetProtocolSchemaString(…). A structure kept for later marshalling shares its definition nodes with the old
+// environment, and later passes of ValidateEvolution rename those in place (`X` → `X_v1`): the text marshalled
+// afterwards is a schema no program of that version ever wrote, and VersionFromSchema rejects genuine old files.
+// ---------------------------------------------------------------------------------------------------------------
+func rulePreviousSchemaTakenAtOnce(c *core.Ctx) {
+	const rule = "A9"
+	c.Rule(rule, "pkg/dsl: every assignment to a field named PreviousSchema is a direct call of GetProtocolSchemaString", 1)
+	p := c.Pkg("pkg/dsl")
+	if p == nil {
+		c.Undecided(rule, "anchor/pkg/dsl", 0, "package not found")
+		return
+	}
+	info := p.TypesInfo
+	n := 0
+	for _, d := range c.AllDecls() {
+		if c.DeclPkg(d) != p || d.Body == nil || c.IsTestFile(d.Pos()) {
+			continue
+		}
+		check := func(rhs ast.Expr, at token.Pos) {
+			n++
+			ok := false
+			if ce, isCall := ast.Unparen(rhs).(*ast.CallExpr); isCall {
+				if fn, _ := typeutil.Callee(info, ce).(*types.Func); fn != nil && fn.Name() == "GetProtocolSchemaString" {
+					ok = true
+				}
+			}
+			c.Check(ok, rule, fmt.Sprintf("%s/PreviousSchema#%d", c.FuncName(d), n), at, "the text is produced on the spot by GetProtocolSchemaString",
+				"PreviousSchema is assigned `"+types.ExprString(rhs)+"`, not the result of GetProtocolSchemaString at this point: a schema structure marshalled later shares its (uncommented) definition nodes with the old environment, which renameOldTypeDefinitions rewrites in place — the previous_schemas_ entry then names `Sample_v1`, a type no v1 program ever wrote")
+		}
+		ast.Inspect(d.Body, func(m ast.Node) bool {
+			switch x := m.(type) {
+			case *ast.AssignStmt:
+				if len(x.Lhs) == len(x.Rhs) {
+					for i, l := range x.Lhs {
+						if se, ok := l.(*ast.SelectorExpr); ok && se.Sel.Name == "PreviousSchema" {
+							check(x.Rhs[i], x.Pos())
+						}
+					}
+				}
+			case *ast.KeyValueExpr:
+				if id, ok := x.Key.(*ast.Ident); ok && id.Name == "PreviousSchema" {
+					check(x.Value, x.Pos())
+				}
+			}
+			return true
+		})
+	}
+	if n == 0 {
+		c.Undecided(rule, "anchor/PreviousSchema", 0, "no assignment to a PreviousSchema field found")
+	}
+}
